@@ -142,11 +142,25 @@ impl Out {
     }
 }
 
-/// run `f`, turning a panic of the code under test into data
-pub fn catch<T>(f: impl FnOnce() -> T) -> Option<T> {
-    std::panic::catch_unwind(std::panic::AssertUnwindSafe(f)).ok()
+thread_local! {
+    static IN_CATCH: std::cell::Cell<u32> = std::cell::Cell::new(0);
 }
 
+/// run `f`, turning a panic of the code under test into data
+pub fn catch<T>(f: impl FnOnce() -> T) -> Option<T> {
+    IN_CATCH.with(|c| c.set(c.get() + 1));
+    let r = std::panic::catch_unwind(std::panic::AssertUnwindSafe(f)).ok();
+    IN_CATCH.with(|c| c.set(c.get() - 1));
+    r
+}
+
+/// panics of the code under test are data and stay silent; a panic of the harness itself is
+/// a tool error: print it and exit 2
 pub fn silence_panics() {
-    std::panic::set_hook(Box::new(|_| {}));
+    std::panic::set_hook(Box::new(|info| {
+        if IN_CATCH.with(|c| c.get()) == 0 {
+            eprintln!("xv: harness panic: {}", info);
+            std::process::exit(2);
+        }
+    }));
 }
